@@ -8,7 +8,7 @@
   O (on the implementation's outputs only): no run panics; "succeeds on one layout / path ⇒ succeeds on every other";
      every run gives the same answer up to the freedom `Spec.sameAnswer` leaves.  K = O (no executable reference: the
      comparison is between configurations; `Spec.run` is evaluated only as a tag when the tables are small).
-  Attribution: none.  C04-F1 (dense aggregation refused NULL group keys, DESIGN A.5) is fixed (4efd9ed) and suppresses nothing;
+  Attribution: C04-F2 only (signature, see below).  C04-F1 (dense aggregation refused NULL group keys, DESIGN A.5) is fixed (4efd9ed) and suppresses nothing;
      a failing case in which exactly the Parquet runs fail with `dense agg: null group keys unsupported` is tagged
      `looks_like:C04-F1`.
 -/
@@ -23,6 +23,18 @@ def variantOf (name : String) : String := ((name.splitOn "@").getD 1 "d")
 def layoutOf (name : String) : String := (name.splitOn "@").headD name
 
 def containsSub (s sub : String) : Bool := (s.splitOn sub).length > 1
+
+/-- GROUP BY with two or more keys -/
+def manyKeyAgg : Query → Bool
+  | .agg keys _ _ => keys.length ≥ 2
+  | _ => false
+
+def nullCells (r : Row) : Nat := (r.filter (· == Val.null)).length
+
+/-- every row by which the two answers differ (as bags) carries at least two NULL cells — the shape of C21-F4: only the group
+    whose composite key is NULL in every column loses rows, on some layouts / schedules and not on others -/
+def differOnlyInAllNullKeyRows (t t0 : Table) : Bool :=
+  (Spec.exceptAll t t0 ++ Spec.exceptAll t0 t).all (fun r => nullCells r ≥ 2)
 
 def handler : Driver.Handler := fun c i => do
   let cs ← Driver.SQL.caseOfJson c
@@ -61,7 +73,14 @@ def handler : Driver.Handler := fun c i => do
   let f1 := ofail.isSome && panics.isEmpty && !errs.isEmpty && differing.isEmpty && !oks.isEmpty
             && errs.all (fun (k, _) => isParquet k && (match msgs.find? (·.1 == k) with | some (_, m) => containsSub m denseMsg | none => false))
   -- C04-F1 is fixed (4efd9ed) and suppresses nothing; its shape is only tagged
-  let attr : Option String := none
+  -- C04-F2 (inherited from C21-F4, open): GROUP BY over >= 2 keys, every run answers, and the runs that disagree with the
+  -- reference do so only in rows of the all-NULL composite-key group; any other disagreement stays a VIOLATION
+  let f2 := ofail.isSome && panics.isEmpty && errs.isEmpty && !differing.isEmpty && Driver.SQL.anyNode manyKeyAgg cs.plan
+            && (match ref? with
+                | some (_, t0) => differing.all (fun k => match oks.find? (fun x => x.1 == k) with
+                    | some (_, t) => differOnlyInAllNullKeyRows t t0 | none => false)
+                | none => false)
+  let attr : Option String := if f2 then some "C04-F2" else none
   let small := (cs.tables.map List.length).sum ≤ 150
   let specTag : List String :=
     if !small || cs.engineDefined then ["spec:skipped"] else
